@@ -1,6 +1,6 @@
 From Coq Require Import ZArith List String.
 From DRX Require Import Py.PyBytes Py.Val.
-From DRX Require Model.ScoreIO Model.RiffIO Model.IndexIO Model.XtractIO Model.SndIO Model.VwscIO Model.ClutIO Model.TextIO Model.CastIO Model.BitdIO.
+From DRX Require Model.ScoreIO Model.RiffIO Model.IndexIO Model.XtractIO Model.SndIO Model.VwscIO Model.ClutIO Model.TextIO Model.CastIO Model.BitdIO Model.DirIO.
 Import ListNotations.
 Open Scope string_scope.
 
@@ -30,7 +30,8 @@ Definition table : list (string * (val -> val)) := [
   ("parse_fmap", Model.TextIO.run_parse_fmap);
   ("parse_cast", Model.CastIO.run_parse_cast);
   ("bitd2bmp", Model.BitdIO.run_bitd2bmp);
-  ("bitd_history", Model.BitdIO.run_bitd_history)
+  ("bitd_history", Model.BitdIO.run_bitd_history);
+  ("parse_dir", Model.DirIO.run_parse_dir)
 ].
 
 Fixpoint lookup (n : string) (t : list (string * (val -> val))) : option (val -> val) :=
